@@ -136,21 +136,32 @@ Fixpoint lock_rec (fuel : nat) (g : graph) (m : nat) : option graph :=
       end
   end.
 
-(* ---------- compile: lock every mixin that does not list this node among its children; snapshot defns ---------- *)
-Definition lock_parents (g : graph) (n : nat) (ms : list nat) : option graph :=
-  fold_left (fun acc m => match acc with
-                          | Some a => match g_get a m with
-                                      | Some y => if mem n (n_children y) then Some a else lock_rec (length g) a m
-                                      | None => None
-                                      end
-                          | None => None
-                          end) ms (Some g).
+(* ---------- _lock_parents: a parent that lists this node among its children (linkback: its changes propagate) stays
+   open, but its own parents are treated the same way, recursively; every other parent is locked ---------- *)
+Fixpoint lock_parents (fuel : nat) (g : graph) (n : nat) : option graph :=
+  match fuel with
+  | 0 => None
+  | S f =>
+      match g_get g n with
+      | None => None
+      | Some x =>
+          fold_left (fun acc m => match acc with
+                                  | Some a => match g_get a m with
+                                              | Some y => if mem n (n_children y) then lock_parents f a m
+                                                          else lock_rec (length g) a m
+                                              | None => None
+                                              end
+                                  | None => None
+                                  end) (n_mixins x) (Some g)
+      end
+  end.
 
+(* ---------- compile: _lock_parents, then snapshot defns ---------- *)
 Definition compile (g : graph) (n : nat) : option graph :=
   match g_get g n with
   | None => None
   | Some x =>
-      match lock_parents g n (n_mixins x), defns (length g) g n with
+      match lock_parents (length g) g n, defns (length g) g n with
       | Some g1, Some t => Some (g_mod g1 n (set_snap t))
       | _, _ => None
       end
@@ -323,31 +334,8 @@ Definition otable_eqb (a b : option table) : bool :=
 (* is the node's observable what a rebuild would produce now? *)
 Definition fresh_b (g : graph) (n : nat) : bool := otable_eqb (obs g n) (defns (length g) g n).
 
-(* ---------- classifier of the open finding KF-43, as a decidable predicate on (graph, operation) ---------- *)
 Definition compiled_b (g : graph) (n : nat) : bool :=
   match g_get g n with Some x => n_compiled x | None => false end.
 
-(* a successful register / unregister / add_mixins on [n] leaves out of date every used node that derives from [n]
-   without being reached by the linkback propagation.  (Since the lock became transitive such a node can only derive
-   from [n] through linkback derivations from a never-used node that is itself a plain derivation: KF-43.) *)
-Definition exposed_mod (g : graph) (n : nat) : list nat :=
-  filter (fun c => compiled_b g c && anc_b (length g) g n c && negb (lb_b (length g) g n c)) (seq 0 (length g)).
-
 Definition is_nil {A} (l : list A) : bool := match l with [] => true | _ => false end.
-
-Definition exposed (g : graph) (o : op) : list nat :=
-  match o with
-  | ORegister n _ _ | OUnregister n _ => exposed_mod g n
-  | OAddMixins n ms => if is_nil (filter (fun m => negb (Nat.eqb m n)) ms) then [] else exposed_mod g n
-  | _ => []
-  end.
-
 Definition is_done (o : outcome) : bool := match o with Done => true | _ => false end.
-
-(* histories in which no successful operation leaves a used node out of date *)
-Fixpoint stale_free_from (g : graph) (ops : list op) : bool :=
-  match ops with
-  | [] => true
-  | o :: r => (negb (is_done (snd (step g o))) || is_nil (exposed g o)) && stale_free_from (step_g g o) r
-  end.
-Definition stale_free (ops : list op) : bool := stale_free_from [] ops.
